@@ -452,6 +452,9 @@ type Contract struct {
 	LoopDec    map[int]Clause
 	LoopMod    map[int][]string
 	PanicsOK   bool
+	ArithWrap  bool   // integer arithmetic wraps around (exact two's complement) instead of raising overflow obligations
+	FirstDefer string // the body must start with `defer <this function>(...)`
+	CallPre    map[string][]Clause // emit-preconditions: callee name[.ordinal] -> clauses over the caller's variables and the callee's parameters
 	Props      []string
 }
 
@@ -494,7 +497,7 @@ type ContractFile struct {
 
 var clauseKW = map[string]bool{"contract": true, "extern": true, "requires": true, "ensures": true, "assigns": true,
 	"loop": true, "pred": true, "func": true, "ufunc": true, "axiom": true, "guards": true, "lockinv": true, "rely": true,
-	"chaninv": true, "ghost": true, "trusted": true, "panics": true, "props": true, "quiet": true, "pure": true}
+	"chaninv": true, "ghost": true, "trusted": true, "panics": true, "props": true, "quiet": true, "pure": true, "firstdefer": true, "callpre": true, "arith": true}
 
 func firstWord(s string) string {
 	s = strings.TrimSpace(s)
@@ -704,6 +707,32 @@ func parseContractText(data, path, pkg string) (*ContractFile, error) {
 			if cur != nil {
 				cur.PanicsOK = true
 			}
+		case "firstdefer":
+			if cur != nil {
+				cur.FirstDefer = rest
+			}
+		case "arith":
+			if cur != nil && rest == "wrap" {
+				cur.ArithWrap = true
+			}
+		case "callpre":
+			// callpre callee[.n]: [@label:] expr
+			if cur == nil {
+				return nil, fail(i, fmt.Errorf("callpre outside contract"))
+			}
+			ci := strings.Index(rest, ":")
+			if ci < 0 {
+				return nil, fail(i, fmt.Errorf("callpre needs ':'"))
+			}
+			callee := strings.TrimSpace(rest[:ci])
+			c, err := mkClause(rest[ci+1:])
+			if err != nil {
+				return nil, fail(i, err)
+			}
+			if cur.CallPre == nil {
+				cur.CallPre = map[string][]Clause{}
+			}
+			cur.CallPre[callee] = append(cur.CallPre[callee], c)
 		case "props":
 			if cur != nil {
 				cur.Props = append(cur.Props, strings.Fields(strings.ReplaceAll(rest, ",", " "))...)
